@@ -42,7 +42,13 @@ InData == LET r == Result IN r.ok => r.p <= Len(d)
    at most CallsPerStep calls.  A recorded decode [len, siglen, calls, outcome] is acceptable iff *)
 CallsPerStep == 40
 CallSlack == 400
+(* Work done inside a single C call (a regular expression match, a C loop) is invisible to the call
+   counter; it is recorded as CPU milliseconds of a CPU-limited child process (outcome "killed" when
+   the limit struck).  The allowance is four orders of magnitude above what a linear decoder needs. *)
+CpuMsPerStep == 5
+CpuSlackMs == 1000
 AcceptableWork(rec) ==
     /\ rec.outcome \in {"value", "exception"}
     /\ rec.calls <= CallsPerStep * StepBound(rec.len, rec.siglen) + CallSlack
+    /\ rec.cpu_ms <= CpuMsPerStep * StepBound(rec.len, rec.siglen) + CpuSlackMs
 =============================================================================
